@@ -33,6 +33,10 @@ LISTED_KINDS = {
     "devs": {"Past", "Unit"},
     "cont": {"OutOfBounds"},
     "cells": {"Full", "NoCell", "Fixed"},
+    "legacy": {"Full", "OutOfBounds"},
+    "layers": {"attach:Value", "create:Value"},
+    "collect": {"Missing", "Unknown"},
+    "signals": {"observe:Value"},
 }
 
 
@@ -65,6 +69,17 @@ RULE = ("per subsystem, scenarios biased towards rejected calls (full/occupied c
         "operation followed it; distinct by sha1 of op lines")
 
 
+def _listed(part, line, o):
+    """is this observation a rejection of one of the kinds the property lists?"""
+    if not o.startswith("err"):
+        return False
+    kinds = LISTED_KINDS.get(part)
+    if kinds is None:
+        return True
+    kind = (o.split() + ["?"])[1]
+    return kind in kinds or f"{line.split()[0]}:{kind}" in kinds
+
+
 def driver_for(sc):
     return PARTS[sc.meta["part"]].C18_DRIVER
 
@@ -89,8 +104,7 @@ def _hdr(part):
 def oracle(sc, obs):
     part = PARTS[sc.meta["part"]]
     bad = list(part.oracle(sc, obs))
-    kinds = LISTED_KINDS.get(sc.meta["part"])
-    rej = [i for i, o in enumerate(obs) if o.startswith("err") and (kinds is None or (o.split() + ["?"])[1] in kinds)]
+    rej = [i for i, o in enumerate(obs) if _listed(sc.meta["part"], sc.lines[i], o)]
     if rej and not sc.meta.get("twin"):
         keep = [i for i in range(len(sc.lines)) if i not in set(rej)]
         meta = {k: v for k, v in sc.meta.items() if k not in ("trace",)}
@@ -109,8 +123,7 @@ def oracle(sc, obs):
 
 
 def nontrivial(sc, obs):
-    kinds = LISTED_KINDS.get(sc.meta["part"])
-    rej = [i for i, o in enumerate(obs) if o.startswith("err") and (kinds is None or (o.split() + ["?"])[1] in kinds)]
+    rej = [i for i, o in enumerate(obs) if _listed(sc.meta["part"], sc.lines[i], o)]
     return bool(rej) and rej[0] < len(obs) - 1
 
 
